@@ -80,6 +80,9 @@ func testC03Cases(t *testing.T) {
 		if rapid.IntRange(0, 3).Draw(rt, "mixedtypes") == 0 {
 			gspec.Types = "mixed"
 		}
+		if rapid.IntRange(0, 2).Draw(rt, "sparse") == 0 {
+			gspec.Sparse = rapid.SampledFrom([]int{2, 3, 7}).Draw(rt, "sparse-every") // some documents lack x and y
+		}
 		ixs := []string{}
 		for _, f := range []string{"x", "u", "y", "pad"} {
 			if rapid.IntRange(0, 2).Draw(rt, "ix-"+f) == 0 {
@@ -156,6 +159,10 @@ func testC03Cases(t *testing.T) {
 		matched := 0
 		if sel, ok := model.Select(q, s.M.Colls["A"].Docs); ok {
 			matched = len(sel)
+		}
+		if gspec.Sparse > 0 && rapid.Bool().Draw(rt, "fill-absent") {
+			// a first bulk update gives the missing fields a value (their nil index entries must go)
+			do(cs.Op{Kind: "update", Q: &cs.Query{Coll: "A", Crit: &cs.Crit{Op: "notexists", Field: "x"}}, UpdMap: map[string]cs.V{"x": {X: int64(mod + 5)}, "y": {X: int64(3)}}})
 		}
 		kind := rapid.SampledFrom([]string{"update", "updatefunc", "updatefunc", "updatefunc", "delete", "delete", "dropcoll"}).Draw(rt, "opkind")
 		op := cs.Op{Kind: kind, Q: q}
